@@ -174,8 +174,10 @@ def run(ck):
     ck.ob("C02-R3", "request-cookies:join-vs-split", ok, wc.loc, wc, "client joins with %s; server splits on %s and skips blanks=%s" % (sorted(set(seq)), sorted(x for x in seps if x), skip))
     sc = lib.single(prog, SV + "writeCookies")
     seq = [p_[1] for p_ in stream_sequence(sc, prog) if p_[0] == "lit"]
-    rd = any((e.get("callee") or "") == H + "Cookie::fromRaw" for e in hs.events("call")) and \
-        any(a.get("const") == "s:set-cookie" or "set-cookie" in (a.get("t") or "") for e in hs.calls(lambda e: (e.get("callee") or "") == H + "Header::LowercaseEqualStatic") for a in e.get("args", []))
+    hsreg = lib.region(prog, hs, within=lambda g_: g_.cls == hs.cls and g_.cls)
+    rd = any((e.get("callee") or "") == H + "Cookie::fromRaw" for g_ in hsreg for e in g_.events("call")) and \
+        any(a.get("const") == "s:set-cookie" or "set-cookie" in (a.get("t") or "") for g_ in hsreg
+            for e in g_.calls(lambda e: (e.get("callee") or "") == H + "Header::LowercaseEqualStatic") for a in e.get("args", []))
     ck.ob("C02-R3", "response-cookies:Set-Cookie-line-vs-fromRaw", "Set-Cookie: " in seq and rd, sc.loc, sc, "one 'Set-Cookie: ' line per cookie; parser hands 'set-cookie' values to Cookie::fromRaw")
 
     # ---------------- R4 ----------------
